@@ -22,7 +22,7 @@ type c13Ctx struct {
 	md5Key string
 	pred   *ssa.Function // IsReplicaSetUpToDate
 	// results of R1
-	matchVar *ssa.Phi
+	matchVar ssa.Value // the value tested `== nil` before the creation: the match loop's variable, or a helper result that returns it
 	matchFn  *ssa.Function
 	listObj  ssa.Value
 }
@@ -154,7 +154,13 @@ func (c *c13Ctx) createSite(e *Effect) {
 func (c *c13Ctx) guard(fn *ssa.Function, site ssa.CallInstruction, ds ssa.Value, depth int, cpos, csf string) {
 	r := c.r
 	ff := computeFacts(fn)
+	// the value X tested `== nil`: a loop variable of this function, or the result of a repository helper
+	// that returns its own loop variable on every return
 	var x *ssa.Phi
+	var top ssa.Value
+	loopFn := fn
+	sites := []*ssa.BasicBlock{site.Block()}
+	dsIn := ds
 	for _, f := range ff.At(site.Block()) {
 		if !f.Pol {
 			continue
@@ -164,9 +170,49 @@ func (c *c13Ctx) guard(fn *ssa.Function, site ssa.CallInstruction, ds ssa.Value,
 			continue
 		}
 		for _, pair := range [][2]ssa.Value{{a, b}, {b, a}} {
-			if ph, isPhi := pair[0].(*ssa.Phi); isPhi && isNilConst(pair[1]) && isERSPtr(ph) {
-				x = ph
+			if !isNilConst(pair[1]) || !isERSPtr(pair[0]) {
+				continue
 			}
+			if ph, isPhi := pair[0].(*ssa.Phi); isPhi {
+				x, top, loopFn, sites, dsIn = ph, ph, fn, []*ssa.BasicBlock{site.Block()}, ds
+				continue
+			}
+			var call *ssa.Call
+			idx := 0
+			switch y := pair[0].(type) {
+			case *ssa.Extract:
+				call, _ = y.Tuple.(*ssa.Call)
+				idx = y.Index
+			case *ssa.Call:
+				call = y
+			}
+			if call == nil {
+				continue
+			}
+			G := staticCallee(&call.Call)
+			if G == nil || !r.Prog.IsRuleSite(G) {
+				continue
+			}
+			ph, isPhi := singleReturn(G, idx).(*ssa.Phi)
+			if !isPhi {
+				continue
+			}
+			var dsPar ssa.Value
+			for i, arg := range call.Call.Args {
+				if unwrap(arg) == unwrap(ds) && i < len(G.Params) {
+					dsPar = G.Params[i]
+				}
+			}
+			if dsPar == nil {
+				dsPar = ds // reported by "tested object is the one created for"
+			}
+			var rets []*ssa.BasicBlock
+			for _, b := range G.Blocks {
+				if returnOf(b) != nil {
+					rets = append(rets, b)
+				}
+			}
+			x, top, loopFn, sites, dsIn = ph, pair[0], G, rets, dsPar
 		}
 	}
 	if x == nil {
@@ -176,19 +222,127 @@ func (c *c13Ctx) guard(fn *ssa.Function, site ssa.CallInstruction, ds ssa.Value,
 				"no such fact at "+r.Prog.Pos(site.Pos())+" in "+shortFunc(fn)+": "+ff.At(site.Block()).String())
 			return
 		}
-		sites := callSitesOf(fn, c.reach)
-		if len(sites) == 0 {
+		csites := callSitesOf(fn, c.reach)
+		if len(csites) == 0 {
 			r.Check("C13.R1", "create guarded by no-match", cpos, csf, "Create is reached only under `X == nil`", false, shortFunc(fn)+" has no static call site reachable from Reconcile")
 			return
 		}
-		for _, s := range sites {
+		for _, s := range csites {
 			c.guard(s.Parent(), s, s.Common().Args[paramIndex(par)], depth+1, cpos, csf)
 		}
 		return
 	}
 	r.Check("C13.R1", "create guarded by no-match", cpos, csf, "Create is reached only under `X == nil` for the match variable X of the list loop", true,
 		"guard at "+r.Prog.Pos(site.Pos())+" in "+shortFunc(fn))
-	c.loop(fn, ff, x, site.Block(), ds)
+	c.matchVar, c.matchFn = top, fn
+	lff := ff
+	if loopFn != fn {
+		lff = computeFacts(loopFn)
+	}
+	c.loop(loopFn, lff, x, sites, dsIn)
+}
+
+// listed: the list object v (as seen at block use of fn) was filled by a List call whose error is known
+// to be nil there — in fn itself, in the callers when v is a parameter, or in the repository helper
+// that returned it (which may also return nil for the failure case).
+func (c *c13Ctx) listed(fn *ssa.Function, v ssa.Value, use *ssa.BasicBlock, depth int) (bool, string) {
+	r := c.r
+	if depth > 3 {
+		return false, "undecided: list provenance too deep"
+	}
+	os := origins(unwrap(v))
+	if len(os) == 0 {
+		return false, "no origin of the list object"
+	}
+	okAny := false
+	for _, o := range os {
+		if isNilConst(o) {
+			continue
+		}
+		switch x := o.(type) {
+		case *ssa.Alloc:
+			ff := computeFacts(fn)
+			found := false
+			for _, ci := range callsIn(fn) {
+				e := clientEffect(fn, ci)
+				if e == nil || e.Verb != "List" || unwrap(e.Obj) != ssa.Value(x) {
+					continue
+				}
+				call, isCall := ci.(*ssa.Call)
+				if !isCall || !call.Block().Dominates(use) {
+					return false, "the List call does not dominate the use of the list"
+				}
+				if !ff.Holds(use, true, func(cv ssa.Value, _ string) bool {
+					return isNilCompareOf(cv, func(y ssa.Value) bool { return y == ssa.Value(call) })
+				}) {
+					return false, "the error of the List call at " + r.Prog.Pos(call.Pos()) + " is not known to be nil where the list is used (an empty list after a failed List would create a duplicate)"
+				}
+				found = true
+				c.listObj = x
+			}
+			if !found {
+				return false, "the list object is not filled by a List call in " + shortFunc(fn)
+			}
+			okAny = true
+		case *ssa.Parameter:
+			sites := callSitesOf(fn, c.reach)
+			if len(sites) == 0 {
+				return false, shortFunc(fn) + " has no static call site"
+			}
+			for _, s := range sites {
+				if ok, why := c.listed(s.Parent(), s.Common().Args[paramIndex(x)], s.Block(), depth+1); !ok {
+					return false, why
+				}
+			}
+			okAny = true
+		case *ssa.Extract, *ssa.Call:
+			var call *ssa.Call
+			idx := 0
+			if ex, isE := x.(*ssa.Extract); isE {
+				call, _ = ex.Tuple.(*ssa.Call)
+				idx = ex.Index
+			} else {
+				call = x.(*ssa.Call)
+			}
+			var H *ssa.Function
+			if call != nil {
+				H = staticCallee(&call.Call)
+			}
+			if H == nil || !r.Prog.IsRuleSite(H) {
+				return false, "the list object comes from " + o.String()
+			}
+			n := 0
+			for _, b := range H.Blocks {
+				ret := returnOf(b)
+				if ret == nil || idx >= len(ret.Results) {
+					continue
+				}
+				allNil := true
+				for _, ro := range origins(ret.Results[idx]) {
+					if !isNilConst(ro) {
+						allNil = false
+					}
+				}
+				if allNil {
+					continue // the failure return: a nil list can not be ranged over without a crash, never silently empty
+				}
+				n++
+				if ok, why := c.listed(H, ret.Results[idx], b, depth+1); !ok {
+					return false, why
+				}
+			}
+			if n == 0 {
+				return false, shortFunc(H) + " never returns"
+			}
+			okAny = true
+		default:
+			return false, "the list object comes from " + o.String()
+		}
+	}
+	if !okAny {
+		return false, "the list object is always nil"
+	}
+	return true, "listed"
 }
 
 // c13Elem identifies a slice element: v is &S[i], or a local copy `e := S[i]`.
@@ -234,7 +388,7 @@ func refsFieldStores(a *ssa.Alloc) []*ssa.Store {
 	return out
 }
 
-func (c *c13Ctx) loop(fn *ssa.Function, ff *FuncFacts, x *ssa.Phi, site *ssa.BasicBlock, ds ssa.Value) {
+func (c *c13Ctx) loop(fn *ssa.Function, ff *FuncFacts, x *ssa.Phi, sites []*ssa.BasicBlock, ds ssa.Value) {
 	r := c.r
 	sf := shortFunc(fn)
 	H := x.Block()
@@ -276,7 +430,6 @@ func (c *c13Ctx) loop(fn *ssa.Function, ff *FuncFacts, x *ssa.Phi, site *ssa.Bas
 		return
 	}
 	pred := preds[0]
-	c.matchVar, c.matchFn = x, fn
 
 	// tested object
 	r.Check("C13.R1", cSame, r.Prog.Pos(pred.Pos()), sf, nSame, unwrap(pred.Call.Args[1]) == unwrap(ds),
@@ -299,8 +452,10 @@ func (c *c13Ctx) loop(fn *ssa.Function, ff *FuncFacts, x *ssa.Phi, site *ssa.Bas
 					continue
 				}
 				for _, s := range b.Succs {
-					if !loop[s] && reaches(s, site) {
-						okCover, why = false, "the loop can be left early (break) on a path that reaches the creation"
+					for _, site := range sites {
+						if !loop[s] && reaches(s, site) {
+							okCover, why = false, "the loop can be left early (break) on a path that reaches the creation"
+						}
 					}
 				}
 			}
@@ -311,25 +466,7 @@ func (c *c13Ctx) loop(fn *ssa.Function, ff *FuncFacts, x *ssa.Phi, site *ssa.Bas
 		okList, whyList := false, "the slice is not the Items of a listed object"
 		if u, isL := S.(*ssa.UnOp); isL && u.Op == token.MUL {
 			if fa, isFA := u.X.(*ssa.FieldAddr); isFA && fieldName(fa) == "Items" {
-				for _, ci := range callsIn(fn) {
-					e := clientEffect(fn, ci)
-					if e == nil || e.Verb != "List" || unwrap(e.Obj) != fa.X {
-						continue
-					}
-					call, isCall := ci.(*ssa.Call)
-					if !isCall || !call.Block().Dominates(H) {
-						whyList = "the List call does not dominate the loop"
-						continue
-					}
-					c.listObj = fa.X
-					if ff.Holds(H, true, func(v ssa.Value, _ string) bool {
-						return isNilCompareOf(v, func(y ssa.Value) bool { return y == ssa.Value(call) })
-					}) {
-						okList, whyList = true, "List at "+r.Prog.Pos(call.Pos())
-					} else {
-						whyList = "the error of the List call is not checked before the loop (an empty list after a failed List would create a duplicate)"
-					}
-				}
+				okList, whyList = c.listed(fn, fa.X, H, 0)
 			}
 		}
 		r.Check("C13.R1", cList, pos, sf, nList, okList, whyList)
@@ -463,30 +600,17 @@ func c13AnnotationStamp(r *Run, fn *ssa.Function, obj ssa.Value, ds ssa.Value, s
 	if stamp == nil {
 		return false, "no stamped value"
 	}
-	updates := func(f *ssa.Function, isObj func(ssa.Value) bool) []*ssa.MapUpdate {
-		var out []*ssa.MapUpdate
-		for _, b := range f.Blocks {
-			for _, in := range b.Instrs {
-				mu, ok := in.(*ssa.MapUpdate)
-				if !ok {
-					continue
-				}
-				if s, isC := constString(mu.Key); !isC || s != key {
-					continue
-				}
-				root, p := accessPath(mu.Map)
-				if len(p) == 0 || p[len(p)-1] != "Annotations" || !isObj(root) {
-					continue
-				}
-				out = append(out, mu)
-			}
+	updates := func(f *ssa.Function, isObj func(ssa.Value) bool) []annWrite {
+		ws, lost := annotationWrites(r.Prog, f, isObj, key)
+		if lost != "" {
+			return nil
 		}
-		return out
+		return ws
 	}
 	// inline
 	if mus := updates(fn, func(v ssa.Value) bool { return v == obj }); len(mus) > 0 {
 		for _, mu := range mus {
-			if mu.Value != stamp {
+			if mu.val != stamp {
 				return false, "the annotation is written with a different value than Spec.TemplateGeneration"
 			}
 		}
@@ -501,7 +625,7 @@ func c13AnnotationStamp(r *Run, fn *ssa.Function, obj ssa.Value, ds ssa.Value, s
 			}
 			found := false
 			for _, mu := range mus {
-				if p.Contains(mu.Block()) {
+				if p.Contains(mu.in.Block()) {
 					found = true
 				}
 			}
@@ -552,9 +676,9 @@ func c13AnnotationStamp(r *Run, fn *ssa.Function, obj ssa.Value, ds ssa.Value, s
 		}
 		found := false
 		for _, mu := range mus {
-			if p.Contains(mu.Block()) {
+			if p.Contains(mu.in.Block()) {
 				found = true
-				if mu.Value != res {
+				if mu.val != res {
 					return false, shortFunc(H) + " writes a different value into the annotation than it returns"
 				}
 			}
@@ -1205,34 +1329,23 @@ func c13PodTemplateCtor(r *Run, ctor *ssa.Function, edsIdx int, key string) {
 	r.Check("C13.R4", "constructor template copy", pos, sf, "the PodTemplate's Template is a (deep) copy of the ExtendedDaemonSet's Spec.Template", okT, w3)
 
 	// hash annotation on every success path
-	var mus []*ssa.MapUpdate
 	okH, whyH := true, ""
-	for _, b := range ctor.Blocks {
-		for _, in := range b.Instrs {
-			mu, ok := in.(*ssa.MapUpdate)
-			if !ok {
-				continue
-			}
-			if s, isC := constString(mu.Key); !isC || s != key {
-				continue
-			}
-			root, p := accessPath(mu.Map)
-			if root != ssa.Value(obj) || len(p) == 0 || p[len(p)-1] != "Annotations" {
-				continue
-			}
-			mus = append(mus, mu)
-			h, why := templateHashSource(r.Prog, mu.Value, 0)
-			if h == nil || h.root != ssa.Value(eds) || !samePath(h.path, []string{"Spec", "Template"}) {
-				okH = false
-				whyH = "annotation value: " + why
-				if h != nil {
-					whyH = "annotation value is " + h.String()
-				}
+	ws, lost := annotationWrites(r.Prog, ctor, func(v ssa.Value) bool { return v == ssa.Value(obj) }, key)
+	for _, w := range ws {
+		h, why := templateHashSource(r.Prog, w.val, 0)
+		if h == nil || h.root != ssa.Value(eds) || !samePath(h.path, []string{"Spec", "Template"}) {
+			okH = false
+			whyH = "annotation value: " + why
+			if h != nil {
+				whyH = "annotation value is " + h.String()
 			}
 		}
 	}
-	if len(mus) == 0 {
+	if len(ws) == 0 {
 		okH, whyH = false, "the hash annotation is never written"
+	}
+	if lost != "" {
+		okH, whyH = false, lost
 	}
 	if okH {
 		paths, _, ok := funcPaths(ctor, 5000)
@@ -1245,8 +1358,8 @@ func c13PodTemplateCtor(r *Run, ctor *ssa.Function, edsIdx int, key string) {
 				continue
 			}
 			found := false
-			for _, mu := range mus {
-				if p.Contains(mu.Block()) {
+			for _, w := range ws {
+				if p.Contains(w.in.Block()) {
 					found = true
 				}
 			}
